@@ -405,4 +405,31 @@ theorem doLookup_uses_fd (e : Env) (hk : e.useHostIno = false) (s : St) (p : Ino
         exact lookupCore_uses_fd e hk s2 f hf
           (by rw [byId_of_tables (show s2.tables = s.tables by rw [h2]; exact h1)]; exact hm) h
 
+theorem tables_opRename (e : Env) (s : St) (p1 : Ino) (st1 : Bool) (p2 : Ino) (st2 : Bool) (hr : Errno) :
+    (opRename e s p1 st1 p2 st2 hr).1.tables = s.tables := by
+  unfold opRename
+  split
+  · rename_i d1 d2 _ _
+    have h1 := tables_getFile e s d1 st1
+    split
+    · rename_i heq; rw [heq] at h1; exact h1
+    · rename_i s1 heq; rw [heq] at h1
+      have h2 := tables_getFile e s1 d2 st2
+      split
+      · rename_i heq2; rw [heq2] at h2; rw [tables_closeTemp, h2]; exact h1
+      · rename_i heq2; rw [heq2] at h2
+        simp only [tables_closeTemp, h2]; exact h1
+  · rfl
+
+theorem tables_opUnlink (e : Env) (s : St) (p : Ino) (pst : Bool) (hr : Errno) :
+    (opUnlink e s p pst hr).1.tables = s.tables := by
+  unfold opUnlink
+  split
+  · rfl
+  · rename_i d _
+    have h1 := tables_getFile e s d pst
+    split
+    · rename_i heq; rw [heq] at h1; exact h1
+    · rename_i heq; rw [heq] at h1; simp only [tables_closeTemp]; exact h1
+
 end Fbr.PtRefs
